@@ -70,7 +70,8 @@ class Gen:
 
     def unary(self, h: fx.Node) -> fx.Node:
         g, r = self.g, self.rng
-        kinds = ["gelu", "silu", "softmax", "dropout", "layer_norm", "linear", "linear_kwbias", "matmul", "conv1d", "sdpa", "tanh", "relu", "mul", "reshape", "slice", "scalar_add", "rms_norm"]
+        kinds = ["gelu", "silu", "softmax", "dropout", "layer_norm", "linear", "linear_kwbias", "matmul", "conv1d", "sdpa", "tanh", "relu", "mul", "reshape", "slice", "scalar_add", "rms_norm",
+                 "matmul_op", "torch_softmax", "torch_rms_norm"]     # other spellings of the same operations: a @ b, torch.softmax, torch.rms_norm (= nn.RMSNorm under Dynamo)
         if self.use_user:
             kinds += ["my_act", "my_act"]
         k = r.choice(kinds)
@@ -90,6 +91,12 @@ class Gen:
                 return g.call_function(F.layer_norm, (), {"input": h, "normalized_shape": (8,)})
             if k == "tanh":
                 return g.call_function(torch.tanh, (), {"input": h})
+        if k == "matmul_op":
+            return g.call_function(operator.matmul, (h, self.param(8, 8)))
+        if k == "torch_softmax":
+            return g.call_function(torch.softmax, (h, -1))
+        if k == "torch_rms_norm":
+            return g.call_function(torch.rms_norm, (h, (8,)))
         if k == "gelu":
             return g.call_function(F.gelu, (h,))
         if k == "silu":
@@ -267,6 +274,7 @@ class Block(nn.Module):
         self.fc2 = nn.Linear(16, 8)
         self.sm = nn.Softmax(dim=-1)
         self.conv = nn.Conv1d(4, 4, 3, padding=1)
+        self.rms = nn.RMSNorm(8)
 
     def forward(self, x):
         if self.kind % 5 in (3, 4):
@@ -276,7 +284,8 @@ class Block(nn.Module):
         elif self.kind % 3 == 1:
             return self.fc2(self.sm(self.fc1(x))) + x        # softmax on the branch -> tau 0.01
         if self.kind % 5 == 3:
-            return torch.add(x, self.fc2(self.act(self.fc1(x))))             # function form of the residual add
+            h = torch.softmax(self.rms(x) @ self.fc1.weight.t(), -1)          # a @ b, torch.softmax, nn.RMSNorm (traced as torch.rms_norm)
+            return torch.add(x, self.fc2(h))                                   # function form of the residual add (softmax on the branch)
         if self.kind % 5 == 4:
             return self.conv(x).add(x)                                        # method form; nn.Conv1d passes 1-tuples
         h = self.fc2(self.act(self.fc1(x)))
@@ -401,7 +410,7 @@ def run(rep: Report, tier: str) -> None:
     common.tlc_must_pass(res, "UnitScale_MC (K=3)")
     rep.add_tlc(res)
     if not quick:
-        for leg in ("stale_deps", "add_constraint_positional", "torch_add_mapped_first"):
+        for leg in ("stale_deps", "add_constraint_positional", "torch_add_mapped_first", "fewer_spellings"):
             r = common.run_tlc("UnitScale_MC", f"UnitScale_MC_{leg}.cfg", timeout=900, tag="usleg")
             common.tlc_must_fail(r, f"UnitScale Legacy={leg}", "AlgoRefinesRecipe")
             rep.extra.setdefault("l2_refuted_deviations", []).append({"legacy": leg, "violated": r.violated_invariant})
